@@ -24,7 +24,7 @@ def persistent_fields_covered_full : Prop :=
 UpdateNodeTmpIndex) has no protobuf field. -/
 theorem persistent_fields_covered_full_false : ¬ persistent_fields_covered_full := by
   intro h
-  have hm : (⟨"DataNode", "Index", "uint64", [], [], "byValue"⟩ : FieldFact) ∈ fieldTable := by decide +kernel
+  have hm : (⟨"DataNode", "Index", "uint64", [], [], "byValue", [], [], []⟩ : FieldFact) ∈ fieldTable := by decide +kernel
   have := h _ hm (by decide +kernel)
   revert this
   decide +kernel
